@@ -351,6 +351,20 @@ def shared_class_containers(ctx):
                        % (cname, mutation[0]), line=lineno)
 
 
+def line_premise(ctx):
+    """the processor's line handling as a premise of another property (C14: a disable @-command met in a file being
+    pre-processed must put the exit sequence into the output, exactly as the live path sends it)"""
+    ctx.rule('C20.R2', 'C20: untouched lines are returned as the very text that was passed in', floor=4)
+    ctx.rule('C20.R3', 'C20: result mapping - None -> the line, IGNORE / handled without output -> dropped, generated commands -> '
+                       'each one once, in order, followed by the file EOL (for G-code lines and @-command lines alike)', floor=4)
+    ctx.rule('C20.R4', 'C20: the command handed to the handlers carries no leading whitespace, line number, comment or EOL', floor=2)
+    ctx.rule('C20.R5', 'C20: the handlers receive the parsed code and sub-code of the same line', floor=2)
+    ctx.rule('C20.R6', 'C20: every line with a G/M/T code goes through handleGcode and every @-line through handleAtCommand', floor=4)
+    I = make_interp(ctx.model)
+    install_handler_summaries(I)
+    line_rules(ctx, I)
+
+
 def handlers_configuration_rule(ctx):
     """the processor builds handlers of its own around the copied state; they behave like the live ones only if a
     GcodeHandlers carries no configuration besides that state: nobody sets an attribute of a handlers object from
@@ -384,7 +398,13 @@ def handlers_configuration_rule(ctx):
         q = '%s.%s' % (cname, fn.name) if cname else fn.name
         for n in ast.walk(fn):
             if isinstance(n, ast.Call) and isinstance(n.func, ast.Name) and n.func.id == 'GcodeHandlers':
-                shapes[q, n.lineno] = (len(n.args), tuple(sorted(k.arg or '**' for k in n.keywords)))
+                # the parameters the call binds, whether positionally or by keyword
+                c0, init = m.lookup('GcodeHandlers', '__init__')
+                params = [a.arg for a in init.args.args[1:]] if init is not None else []
+                bound = set(params[:len(n.args)]) | set(k.arg or '**' for k in n.keywords)
+                if len(n.args) > len(params) or any(isinstance(a, ast.Starred) for a in n.args):
+                    bound.add('*')
+                shapes[q, n.lineno] = tuple(sorted(bound))
                 ctx.instance('C20.R11', ('construction', q))
     if len(set(shapes.values())) > 1:
         (q, line) = sorted(shapes)[0]
